@@ -24,7 +24,12 @@ import (
 // Every handshake message is built by hand so that any message can be sent in any state with a
 // proof taken at any consensus height the verifying client stores (or does not store),
 // duplicated, replayed verbatim, out of order, with crossing INITs. The mock application
-// negotiates versions ("a>b" proposed by INIT is answered with "b" by TRY), so version agreement
+// negotiates versions ("a>b" proposed by INIT is answered with "b" by TRY, "a>" with the EMPTY
+// version, a proposal "_" is stored as the empty version by INIT and answered with "" (UNORDERED)
+// or "dflt" (ORDERED)), so version agreement - including every empty/non-empty boundary - is
+// not vacuous. The negotiation is exercised in all four shapes: answer equal to the proposal,
+// different non-empty answer, empty answer to a non-empty proposal, non-empty answer to an empty
+// proposal.
 // is not vacuous. A low-weight "plant" op overwrites one non-state field of a not-yet-OPEN end
 // by a direct store write (a counterparty chain that does not run ibc-go): the oracle is always
 // relative to the RECORDED history of both chains, so it stays sound.
@@ -81,7 +86,7 @@ func genC12(t *rapid.T) c12Case {
 	for a := 0; a < nAtt; a++ {
 		att := c12Attempt{
 			Ord:   rapid.IntRange(1, 2).Draw(t, "ord"),
-			Ver:   rapid.SampledFrom([]string{"v1", "a>b", "mock-version", "", "p>q>r"}).Draw(t, "ver"),
+			Ver:   rapid.SampledFrom([]string{"v1", "a>b", "a>", "_", "mock-version", "", "p>q>r", "a>", "_"}).Draw(t, "ver"),
 			Conn:  rapid.IntRange(0, c.NConn-1).Draw(t, "conn"),
 			First: rapid.IntRange(0, 1).Draw(t, "first"),
 		}
@@ -188,8 +193,26 @@ type c12World struct {
 
 func chanKey(port, id string) string { return port + "/" + id }
 
-// negotiate is the mock application's version negotiation: "a>b" is answered with "b".
-func negotiate(v string) string {
+// initStored is the version the mock application stores on INIT for a proposal: "_" stands for
+// the empty version (the mock module wrapper replaces a literally blank proposal by
+// "mock-version" before the callback runs, so blank itself never reaches the store).
+func initStored(v string) string {
+	if v == "_" {
+		return ""
+	}
+	return v
+}
+
+// negotiate is the mock application's answer on TRY to the version stored by INIT: "a>b" is
+// answered with "b", "a>" with the empty version, the empty version with "" on UNORDERED and
+// "dflt" on ORDERED channels, anything else is echoed.
+func negotiate(v string, ord channeltypes.Order) string {
+	if v == "" {
+		if ord == channeltypes.ORDERED {
+			return "dflt"
+		}
+		return ""
+	}
 	if i := strings.Index(v, ">"); i >= 0 {
 		return v[i+1:]
 	}
@@ -219,8 +242,11 @@ func newC12World(outer *testing.T, nconn int, nAtt int) *c12World {
 		}
 	})
 	for c := 0; c < 2; c++ {
-		w.App(c).IBCMockModule.IBCApp.OnChanOpenTry = func(_ sdk.Context, _ channeltypes.Order, _ []string, _, _ string, _ channeltypes.Counterparty, counterpartyVersion string) (string, error) {
-			return negotiate(counterpartyVersion), nil
+		w.App(c).IBCMockModule.IBCApp.OnChanOpenInit = func(_ sdk.Context, _ channeltypes.Order, _ []string, _, _ string, _ channeltypes.Counterparty, version string) (string, error) {
+			return initStored(version), nil
+		}
+		w.App(c).IBCMockModule.IBCApp.OnChanOpenTry = func(_ sdk.Context, order channeltypes.Order, _ []string, _, _ string, _ channeltypes.Counterparty, counterpartyVersion string) (string, error) {
+			return negotiate(counterpartyVersion, order), nil
 		}
 		x.cur[c] = x.readChannels(c)
 		x.hist[c].record(w.Height(c), x.cur[c])
@@ -309,7 +335,7 @@ func (x *c12World) build(cs c12Case, op c12Op) (sdk.Msg, uint64, bool) {
 		return channeltypes.NewMsgChannelOpenInit(port, ver, ord, []string{hop}, port, signer), 0, false
 	case "try":
 		hop, client := x.hopFor(c, att, op.M == "conn")
-		cpVer := att.Ver
+		cpVer := initStored(att.Ver)
 		if cp, ok := x.cur[o][chanKey(port, remoteID)]; ok { // what a relayer reads off the counterparty
 			cpVer, ord = cp.Version, cp.Ordering
 		}
@@ -324,7 +350,7 @@ func (x *c12World) build(cs c12Case, op c12Op) (sdk.Msg, uint64, bool) {
 		return channeltypes.NewMsgChannelOpenTry(port, att.Ver, ord, []string{hop}, port, remoteID, cpVer, proof, ph, signer), h, fresh
 	case "ack":
 		client := x.clientOfChannel(c, local, fallbackClient)
-		cpVer := negotiate(att.Ver)
+		cpVer := negotiate(initStored(att.Ver), ord)
 		if cp, ok := x.cur[o][chanKey(port, remoteID)]; ok {
 			cpVer = cp.Version
 		}
@@ -518,6 +544,18 @@ func (x *c12World) check(t rapid.TB, rec *vx.Case, i int, op c12Op, st c12Step) 
 						i, op, k, c, pb.State, st.h, pa.Counterparty.PortId, pa.Counterparty.ChannelId, cp, ok, pa)
 				}
 				rec.Add("open_transitions_checked", 1)
+				if ok && pb.State == channeltypes.INIT {
+					switch {
+					case cp.Version == "" && pb.Version != "":
+						rec.Class("ack-empty-answer-to-nonempty-proposal")
+					case cp.Version != "" && pb.Version == "":
+						rec.Class("ack-nonempty-answer-to-empty-proposal")
+					case cp.Version == pb.Version:
+						rec.Class("ack-answer-equals-proposal")
+					default:
+						rec.Class("ack-different-nonempty-answer")
+					}
+				}
 			}
 			// ---- close-confirm needs a proven CLOSED counterparty
 			if pa.State == channeltypes.CLOSED && st.hadTx && st.ok && st.chain == c && st.kind == "closeconfirm" {
